@@ -6,11 +6,11 @@ from ..oracles import cmark, htmlnorm, rules_ref
 from ..runner import Run
 from .c07 import CRASH_RE
 
-PLAN = {"B2/53": 900, "B3/89": 500, "B4/83": 250, "N1/11": 1200, "W1/2": 1000, "S2": 700, "S3": 150, "I4/97": 250, "H4": 1200, "P2": 900, "R2/3": 600, "R3": 300, "T4/3": 400}
+PLAN = {"B2/53": 900, "B3/89": 500, "B4/83": 250, "N1/11": 1200, "W1/2": 1000, "S2": 700, "S3": 150, "I4/97": 250, "H4": 1200, "P2": 900, "R2/3": 600, "R3": 300, "T4/3": 400, "Z1": 900}
 EVALUATOR = "vp.props.c06:ev"
 RULE = (
     "documents = sub-lattices of the bounded universes on which C03's oracle holds (the independent parser agrees on the block structure), without pragmas / front matter / CR; "
-    "rules with a crisp documented trigger: md001 md004 md009 md010 md013 md018 md019 md022 md023 md024 md025 md026 md029 md030 md031 md032 md035 md040 md041 md042 md045 md046 md047 md048, each under its default configuration (one scan with exactly these "
+    "rules with a crisp documented trigger: md001 md003 md004 md009 md010 md012 md013 md014 md018 md019 md020 md021 md022 md023 md024 md025 md026 md027 md028 md029 md030 md031 md032 md033 md034 md035 md036 md037 md038 md039 md040 md041 md042 md043 md044 md045 md046 md047 md048, each under its default configuration (one scan with exactly these "
     "rules enabled) and under the documented configuration values listed in oracles/rules_ref.py::REFS (rule alone, values via --set), variant scans only when the rule's construct occurs in the document; "
     "oracle: per rule an independent statement of the documented trigger over (source lines, markdown-it-py block view) giving MUST and MUST-NOT line sets (everything else = documentation silent, not judged); "
     "failure = a MUST line without a report of that rule (missed) or a report on a MUST-NOT line (spurious); only (line, rule id) is compared; non-trivial = a non-empty MUST set or a report; distinct by (source hash, rule, configuration)"
@@ -24,6 +24,11 @@ def fmt(v):
     if isinstance(v, int):
         return f"$#{v}"
     return str(v)
+
+
+def missed(must, got):
+    """a MUST element is a line, or a frozenset of lines of which at least one must carry a report"""
+    return any((not (m & got)) if isinstance(m, frozenset) else (m not in got) for m in must)
 
 
 def only_args(rules):
@@ -45,6 +50,16 @@ def relevant(rid, v):
         return any(l.endswith(" ") for l in v.lines)
     if rid == "md010":
         return "\t" in v.src
+    if rid in ("md003", "md043"):
+        return bool(v.headings)
+    if rid == "md012":
+        return "\n\n\n" in v.src
+    if rid == "md033":
+        return "<" in v.src
+    if rid == "md036":
+        return "*" in v.src or "_" in v.src
+    if rid == "md044":
+        return "paragraph" in v.src.lower() or "this" in v.src.lower()
     return True
 
 
@@ -80,7 +95,7 @@ def ev(src, opts, rank):
     for rid in default_variants:
         must, must_not = rules_ref.REFS[rid][0](v, {})
         got = reported.get(rid, set())
-        if must - got:
+        if missed(must, got):
             problems.add(f"{rid}|default|missed")
         if got & must_not:
             problems.add(f"{rid}|default|spurious")
@@ -103,7 +118,7 @@ def ev(src, opts, rank):
             got = {ln for ln, col, r, txt in fails if r.lower() == rid}
             must, must_not = fn(v, cfg)
             tag = ",".join(f"{k}={val}" for k, val in sorted(cfg.items()))
-            if must - got:
+            if missed(must, got):
                 problems.add(f"{rid}|{tag}|missed")
             if got & must_not:
                 problems.add(f"{rid}|{tag}|spurious")
@@ -121,7 +136,7 @@ def main(tier, seed):
     return run.finish(RULE, assumptions=[
         "the references encode a conservative two-sided reading of newdocs/src/plugins/rule_md*.md: lines the documentation does not clearly decide are in neither set",
         "block structure comes from the vendored markdown-it-py (line maps), established per document by C03's oracle",
-        "rules without a crisp, parser-independent documented trigger (md003 md005 md007 md012 md014 md020 md021 md027 md028 md033 md034 md036-39 md043 md044) are not judged here"])
+        "rules without a crisp, parser-independent documented trigger (md002 md005 md006 md007 md011 md999 pml100 pml101) are not judged here; for md012 md014 md028 md043 and setext headings in md003 the documentation does not say which line carries the report, so a report on any line of the construct satisfies a MUST"])
 
 
 def replay(case):
